@@ -67,7 +67,7 @@ int sort_by_len_name(const void *a, const void *b)
         if((*one)->len > (*two)->len){
                 return -1;
         }else if((*one)->len == (*two)->len){
-                int c = strncmp((*one)->name, (*two)->name, MSA_NAME_LEN);
+                int c = strcmp((*one)->name, (*two)->name);
                 if(c < 0){
                         return -1;
                 }else{
